@@ -100,10 +100,10 @@ def Expr.tb : Expr → List Key
 then): conjunctions, nested in any way, of conditions in the cover fragment and quantifiers `exists_ q φ` / `forAll q φ`
 over conditions `φ` in the cover fragment, with the side conditions of `Expr.Ql` at each quantifier (the variables an
 `exists` needs bound may be bound by ANY conjunct evaluated before it, also by an earlier `exists`), every quantified
-variable used nowhere outside its quantifier, and nothing evaluated AFTER a `forAll` (the row a `ForAll` passes on lists
-the candidate's keys twice; nothing is proved about conjuncts that meet such a row) -/
+variable used nowhere outside its quantifier. Conjuncts may also be evaluated AFTER a `forAll` (the row a `ForAll` passes
+on lists the candidate's keys twice, with one value: `EnvFn` in `Lemmas/EqlQuant.lean`) -/
 def Expr.Qt : Expr → List VarId → List Key → Bool
-  | .and l r, A, B => Expr.Qt l A B && l.noForAll && (l.qvars.all fun v => !r.vars.contains v) &&
+  | .and l r, A, B => Expr.Qt l A B && (l.qvars.all fun v => !r.vars.contains v) &&
       Expr.Qt r (A ++ l.vars) (B ++ l.tb)
   | .exists_ q φ, A, B => φ.FcQ && !A.contains q && (Expr.bK true φ).contains (.var q) &&
       (Expr.bK false φ).contains (.var q) && φ.vars.all fun v => v == q || B.contains (.var v)
